@@ -4,10 +4,12 @@ package lsm
 
 import (
 	"os"
+	"time"
 
 	"github.com/feichai0017/NoKV/file"
 	sym "github.com/feichai0017/NoKV/internal/verifsym"
 	"github.com/feichai0017/NoKV/kv"
+	"github.com/feichai0017/NoKV/metrics"
 	"github.com/feichai0017/NoKV/utils"
 )
 
@@ -57,7 +59,10 @@ func c35BytesToU32Slice(b []byte) []uint32 {
 }
 
 func c35Key(tag string) []byte {
-	n := sym.Int(tag+"_len", 1, 2)
+	n := 1
+	if !c35OneBlock {
+		n = sym.Int(tag+"_len", 1, 2)
+	}
 	uk := make([]byte, n)
 	for i := range uk {
 		uk[i] = sym.U8(tag + "_byte")
@@ -65,10 +70,36 @@ func c35Key(tag string) []byte {
 	return kv.InternalKey(kv.CFDefault, uk, uint64(sym.SymInt(tag+"_version", 1, 3)))
 }
 
+// c35OneBlock: fixed block size 4096 (C14 entry); c35CacheOn: a block cache that
+// keeps every block handed to it (one legal behaviour of the real cache).
+var (
+	c35OneBlock bool
+	c35CacheOn  bool
+	c35Blocks   map[uint64]*block
+)
+
+func c35BlockCacheGet(c *blockCache, key uint64) (*block, bool) {
+	b, ok := c35Blocks[key]
+	return b, ok && b != nil
+}
+func c35BlockCacheAdd(c *blockCache, level int, tbl *table, key uint64, blk *block) {
+	if blk == nil {
+		return
+	}
+	if c35Blocks == nil {
+		c35Blocks = map[uint64]*block{}
+	}
+	c35Blocks[key] = blk
+}
+
 func c35LM() (*levelManager, func()) {
-	opt := &Options{SSTableMaxSz: 1 << 20, BloomFalsePositive: 0}
+	opt := &Options{SSTableMaxSz: 1 << 20, BloomFalsePositive: 0, BlockCacheSize: 1024}
+	bs := 2
+	if !c35OneBlock {
+		bs = sym.Int("block_size", 0, 2)
+	}
 	// every entry its own block | about two entries per block | one block
-	switch sym.Int("block_size", 0, 2) {
+	switch bs {
 	case 0:
 		opt.BlockSize = 1
 	case 1:
@@ -79,6 +110,10 @@ func c35LM() (*levelManager, func()) {
 	if sym.Symbolic() {
 		file.VerifResetFiles()
 		opt.WorkDir = ""
+		c35Blocks = nil
+		if c35CacheOn {
+			return &levelManager{opt: opt, cache: &cache{blocks: &blockCache{}, metrics: &metrics.CacheCounters{}}}, func() {}
+		}
 		return &levelManager{opt: opt, cache: &cache{}}, func() {}
 	}
 	dir, err := os.MkdirTemp("", "verif-sst-")
@@ -102,7 +137,7 @@ func c35Build(lm *levelManager) (*table, []c35Rec, string) {
 			sym.Assume(utils.CompareKeys(spec[i-1].key, k) < 0) // the builder's contract: strictly increasing keys
 		}
 		var v []byte
-		if sym.Int("large_value", 0, 1) == 1 {
+		if !c35OneBlock && sym.Int("large_value", 0, 1) == 1 {
 			v = make([]byte, 80) // an entry larger than the small and the medium block size
 			v[0], v[79] = sym.U8("payload"), sym.U8("payload")
 		} else {
@@ -212,3 +247,67 @@ func c35Run(what int) {
 func VerifC35Search() { c35Run(0) }
 func VerifC35Scan()   { c35Run(1) }
 func VerifC35Seek()   { c35Run(2) }
+
+// ---- C14: a corrupted data block is detected, also on the second read ----
+//
+// A table with one data block (2 symbolic entries); then ONE byte of that block
+// — any position except the 4-byte checksum-length trailer (framing, see DESIGN
+// 9.2 C14) — is XORed with an arbitrary non-zero mask on the file. Every lookup
+// afterwards, the first and the repeated one (block cache on), either reports an
+// error or returns the stored entry unchanged: never silently something else.
+func VerifC14SSTBlockCorruption() {
+	c35OneBlock, c35CacheOn = true, true
+	lm, cleanup := c35LM()
+	defer cleanup()
+	t, spec, name := c35Build(lm)
+	c35OneBlock, c35CacheOn = false, false
+	offs := t.index().GetOffsets()
+	_ = t
+	sym.Assert(len(offs) == 1, "one-data-block")
+	blockLen := int(offs[0].GetLen())
+	pos := sym.Int("corrupted_byte", 0, blockLen-5)
+	mask := sym.U8("xor_mask")
+	sym.Assume(mask != 0)
+	if sym.Symbolic() {
+		data := file.VerifFileBytes(name)
+		data[pos] ^= mask
+	} else {
+		f, err := os.OpenFile(name, os.O_RDWR, 0)
+		if err != nil {
+			panic(err)
+		}
+		var b [1]byte
+		if _, err := f.ReadAt(b[:], int64(pos)); err != nil {
+			panic(err)
+		}
+		b[0] ^= mask
+		if _, err := f.WriteAt(b[:], int64(pos)); err != nil {
+			panic(err)
+		}
+		_ = f.Close()
+	}
+	// the corrupted file is opened afresh (as after a restart: new handle, empty caches)
+	c35Blocks = nil
+	lm2 := &levelManager{opt: lm.opt, cache: &cache{blocks: &blockCache{}, metrics: &metrics.CacheCounters{}}}
+	if !sym.Symbolic() {
+		lm2.cache = newCache(lm.opt)
+	}
+	var t2 *table
+	sym.NoPanic("corrupted-block-never-panics-the-reader", func() { t2 = openTable(lm2, name, nil) })
+	if t2 == nil {
+		sym.Reached("end") // refused at open: detected
+		return
+	}
+	which := sym.Int("looked_up_entry", 0, len(spec)-1)
+	for round := 0; round < 2; round++ {
+		if round == 1 && !sym.Symbolic() {
+			time.Sleep(30 * time.Millisecond) // the real block cache admits entries asynchronously
+		}
+		var maxVs uint64
+		var e *kv.Entry
+		var err error
+		sym.NoPanic("corrupted-block-never-panics-the-reader", func() { e, err = t2.Search(spec[which].key, &maxVs) })
+		sym.Assert(err != nil || (e != nil && c35Same(e, spec[which])), "corruption-detected-or-data-intact")
+	}
+	sym.Reached("end")
+}
